@@ -140,7 +140,7 @@ def run(shard):
         return H.canon_json(doc)
 
     def viol(monitor, clause, detail):
-        H.violation("C12", monitor, clause, dict(state["case"], history=" ".join(state["hist"][-12:])), detail)
+        H.violation("C12", monitor, clause, dict(state["case"] or {"k": "storm", "id": "fault-storm"}, history=" ".join(state["hist"][-12:])), detail)
 
     # ---- interpreter-wide state must not be changed by an API call ------------------------------
     import sys as _sys
@@ -279,7 +279,7 @@ def run(shard):
                                ("normalize", pre_data, post_data("normalize")), ("to_json_data", pre_data, post_data("to_json_data")),
                                ("from_json_data", pre_json, post_json)):
         _p, _q = with_global(_pre, _post, _name)
-        H.Monitor(CodeData, _name, pre=_p, post=_q).install()
+        H.Monitor(CodeData, _name, pre=_p, post=_q, storm=True).install()
 
     # ---- history driver --------------------------------------------------------------------------
     def same_data(a, b):
